@@ -388,7 +388,22 @@ class Interp:
         it = self.eval(s.iter)
         items = models.concrete_iter(self, it)
         if items is not None:
-            for x in items:
+            spec = self.loop_spec(s) or {}
+            cuts = spec.get('cuts', {})
+            kk = self.loop_ord.get(s)
+            for pos, x in enumerate(items):
+                if pos in cuts:
+                    # cut point inside an exactly unrolled loop: prove the stage assertion,
+                    # forget the state, continue from the assertion only
+                    for j, inv in enumerate(cuts[pos]):
+                        self.oblige('%s.loop#%d.cut@%d[%d]' % (self.vc.qual, kk, pos, j),
+                                    self.spec_bool(inv), 'inv', {'text': inv})
+                    names, mutated = assigned_names(s.body)
+                    for n in sorted(names | mutated):
+                        if n in self.env:
+                            self.env[n] = models.havoc_value(self, self.env[n], n, spec)
+                    for inv in cuts[pos]:
+                        self.assume(self.spec_bool(inv))
                 self.assign(s.target, x)
                 try:
                     self.exec_block(s.body)
@@ -451,6 +466,9 @@ class Interp:
             self.assume(i <= seqlen)
         for inv in spec.get('inv', []):
             self.assume(self.spec_bool(inv, inv_env(i)))
+        for lem in spec.get('lemmas', []):
+            # instances of spec-function definitions (always true); assumed, never obligations
+            self.assume(self.spec_bool(lem, inv_env(i)))
         which = self.path.choose(2, 'loop#%d' % k)
         if which == 0:
             # one arbitrary iteration
